@@ -4,6 +4,7 @@ used by the property theorems in `Props/C08.lean` (kept here so that the Props f
 -/
 import PromVerif.Lemmas.MultiprocessFamily
 import PromVerif.Lemmas.MultiprocessSpec
+import PromVerif.Lemmas.MultiprocessLabels
 
 namespace PromVerif.Props.C08
 open PromVerif.Py PromVerif.Generated.Multiprocess
@@ -21,6 +22,8 @@ structure WFInput (bo : BOps B) (fs : List (SFile V)) : Prop where
   modes : ∀ c ∈ allContribs fs, c.typ = gaugeType → c.mode ∈ gaugeModes
   no_pid_label : ∀ c ∈ allContribs fs, c.typ = gaugeType → ∀ l ∈ c.key.labels, l.1 ≠ pidLabel
   bounds_parse : ∀ c ∈ allContribs fs, c.typ = histogramType → ∀ t, leText c = some t → (bo.parse t).isSome = true
+  /-- label names inside one key are pairwise different (the key's labels are a JSON object / Python dict) -/
+  label_names : ∀ c ∈ allContribs fs, (c.key.labels.map (·.1)).Nodup
 
 theorem mem_contribs {fs : List (SFile V)} {mn : Str} {c : Contrib V} (h : c ∈ contribs fs mn) :
     c ∈ allContribs fs ∧ c.key.metric = mn := by
